@@ -622,4 +622,116 @@ theorem restored_inv (b : Bytes) (c' : Conn) (h : restore fresh b = (c', .rc 0))
   · intro e he u hu; rw [hq] at he; rw [(hpr e he).2.2.2] at hu; cases hu
   · intro e he _; rw [hq] at he; exact (hpr e he).2.1
 
+
+/-! ### a restored connection and everything done with it afterwards -/
+section RestoredHistory
+open Strophe.Lemmas.SendQueue
+
+/-- the history a restored connection starts with: nothing on the wire yet, the restored unsent
+    elements are what has been handed in -/
+def restoredHist (c' : Conn) : Hist :=
+  { st := c'.q, wire := [], ghost := c'.q.queue.map fun e => (e.uid, e.data) }
+
+theorem match_self (q : List Elem) : Match q (q.map fun e => (e.uid, e.data)) := by
+  induction q with
+  | nil => rfl
+  | cons e tl ih => exact Or.inr ⟨e, tl, rfl, rfl, rfl, ih⟩
+
+theorem mkSmElems_uids (s : Nat) (l : List (UInt32 × Bytes)) :
+    ∀ e ∈ mkSmElems s l, s ≤ e.uid ∧ e.uid < s + l.length := by
+  intro e he
+  simp only [mkSmElems, List.mem_map] at he
+  obtain ⟨⟨⟨h, t⟩, i⟩, hx, rfl⟩ := he
+  have := List.mem_zipIdx hx
+  simp at this ⊢
+  omega
+
+
+theorem stepH_ghost_prefix (h : Hist) (op : Op) :
+    ∃ later, (stepH h op).ghost.map (·.1) = h.ghost.map (·.1) ++ later := by
+  unfold stepH
+  split
+  rename_i s' out hs
+  split
+  · refine ⟨[], ?_⟩
+    simp only [List.append_nil, List.map_map]
+    apply List.map_congr_left
+    intro p _
+    obtain ⟨u, t⟩ := p
+    simp only [Function.comp]
+    split <;> rfl
+  · exact ⟨_, List.map_append⟩
+  · exact ⟨_, List.map_append⟩
+
+theorem foldl_stepH_ghost_prefix (ops : List Op) (h : Hist) :
+    ∃ later, (ops.foldl stepH h).ghost.map (·.1) = h.ghost.map (·.1) ++ later := by
+  induction ops generalizing h with
+  | nil => exact ⟨[], by simp⟩
+  | cons op ops ih =>
+    obtain ⟨l1, h1⟩ := stepH_ghost_prefix h op
+    obtain ⟨l2, h2⟩ := ih (stepH h op)
+    exact ⟨l1 ++ l2, by rw [List.foldl_cons, h2, h1, List.append_assoc]⟩
+
+theorem restored_hinv (b : Bytes) (c' : Conn) (h : restore fresh b = (c', .rc 0)) :
+    HInv (restoredHist c') := by
+  have hinv := restored_inv b c' h
+  obtain ⟨p, -, -, rfl⟩ := restore_fresh_ok b c' h
+  have hq : (restoredConn p).q.queue = mkElems 0 p.sendq := rfl
+  have hsm : (restoredConn p).q.smQueue = mkSmElems (0 + p.sendq.length) p.smq := rfl
+  have hn : (restoredConn p).q.nextUid = 0 + p.sendq.length + p.smq.length := rfl
+  have hu : ∀ e ∈ mkElems 0 p.sendq, e.uid < p.sendq.length := by
+    intro e he
+    have hm : e.uid ∈ (mkElems 0 p.sendq).map (·.uid) := List.mem_map.2 ⟨e, he, rfl⟩
+    rw [mkElems_uids, List.mem_range'_1] at hm
+    omega
+  refine ⟨hinv, ?_, ?_, ?_, ?_, [], _, rfl, ?_, match_self _⟩
+  · intro e he
+    show e.uid < (restoredConn p).q.nextUid
+    rw [hn]; rw [show (restoredHist (restoredConn p)).st.smQueue = _ from hsm] at he
+    have := (mkSmElems_uids _ _ e he).2; omega
+  · intro e he e' he'
+    rw [show (restoredHist (restoredConn p)).st.smQueue = _ from hsm] at he
+    rw [show (restoredHist (restoredConn p)).st.queue = _ from hq] at he'
+    have h1 := (mkSmElems_uids _ _ e he).1
+    have h2 := hu e' he'
+    omega
+  · intro g hg
+    show g.1 < (restoredConn p).q.nextUid
+    rw [hn]
+    simp only [restoredHist, hq, List.mem_map] at hg
+    obtain ⟨e, he, rfl⟩ := hg
+    have := hu e he
+    show e.uid < _
+    omega
+  · show (((restoredConn p).q.queue.map fun e => (e.uid, e.data)).map (·.1)).Nodup
+    rw [List.map_map, hq]
+    have : ((fun x : Nat × Bytes => x.1) ∘ fun e : Elem => (e.uid, e.data)) = fun e => e.uid := rfl
+    rw [this, mkElems_uids]; exact List.nodup_range'
+  · show ([] : Bytes) = gflat [] ++ headWritten (restoredConn p).q.queue
+    rw [hq]
+    cases hl : mkElems 0 p.sendq with
+    | nil => rfl
+    | cons e tl =>
+      have := (mkElems_pristine 0 p.sendq e (by rw [hl]; exact List.mem_cons_self)).2.1
+      simp [gflat, headWritten, this]
+
+/-- the restored queues behave like native ones, in full: whatever is done with the restored
+    connection afterwards (connect, sends, loop iterations under any accept schedule, drops,
+    disconnects), the bytes on the wire followed by the bytes still queued are the restored unsent
+    texts, in the saved order, followed by everything handed in later -/
+theorem restored_then_fifo (b : Bytes) (c' : Conn) (h : restore fresh b = (c', .rc 0))
+    (ops : List Op) :
+    let hN := ops.foldl stepH (restoredHist c')
+    Inv hN.st ∧ hN.wire ++ pending hN.st.queue = (hN.ghost.map (·.2)).flatten ∧
+      ∃ later, hN.ghost.map (·.1) = c'.q.queue.map (·.uid) ++ later := by
+  intro hN
+  have hi : HInv hN := foldl_stepH_ind HInv hinv_step ops _ (restored_hinv b c' h)
+  refine ⟨hi.inv, hi.fifo, ?_⟩
+  obtain ⟨later, hl⟩ := foldl_stepH_ghost_prefix ops (restoredHist c')
+  refine ⟨later, ?_⟩
+  rw [hl]
+  simp [restoredHist, List.map_map, Function.comp_def]
+
+end RestoredHistory
+
 end Strophe.Lemmas.SmBlob
